@@ -226,6 +226,9 @@ func TestC08RLimits(t *testing.T) {
 type c08VCase struct {
 	Runner   string
 	Workload string // cpu-rlimit | cpu-hard-rlimit | fsize | timelimit | memlimit | below
+	// how the program ends after the workload: "" = exit 0, "exit3", "segv" (a real fault): a program over the runner's
+	// bound is Time/Memory Limit Exceeded however it ends
+	Ending string `json:",omitempty"`
 }
 
 func c08RunVerdict(c c08VCase, ce *c09Env, mu *sync.Mutex) (runner.Result, *probe.Report, error) {
@@ -263,6 +266,12 @@ func c08RunVerdict(c c08VCase, ce *c09Env, mu *sync.Mutex) (runner.Result, *prob
 		lim.MemoryLimit = 256 << 20
 		s.Add("spin:20")
 		s.Add("touch:8")
+	}
+	switch c.Ending {
+	case "exit3":
+		s.Add("exit:3")
+	case "segv":
+		s.Add("fault:segv")
 	}
 	s.Add("exit:0")
 	filter, err := buildFilter(c08Allow(), nil, libseccomp.ActionKill)
@@ -356,7 +365,7 @@ func c08CheckVerdict(c c08VCase, res runner.Result) error {
 
 func TestC08Verdicts(t *testing.T) {
 	rec := vh.NewRecorder(t, "C08", "exploration",
-		"verdict part: runner in {ptrace, unshare, container} x workload in {spin past RLIMIT_CPU soft, spin past the hard limit with SIGXCPU ignored, write past RLIMIT_FSIZE, spin 400ms under a 100ms runner time bound, touch 96 MiB under a 32 MiB runner memory bound, stay far below all bounds}; expected Time/Output/Memory Limit Exceeded resp. Normal with plausible measurements (margins >=3x); rows the kernel does not produce for a pid-namespace init are relaxed")
+		"verdict part: runner in {ptrace, unshare, container} x workload in {spin past RLIMIT_CPU soft, spin past the hard limit with SIGXCPU ignored, write past RLIMIT_FSIZE, spin 400ms under a 100ms runner time bound, touch 96 MiB under a 32 MiB runner memory bound, stay far below all bounds} x (for the two runner bounds) ending in {exit 0, exit 3, real SIGSEGV}; expected Time/Output/Memory Limit Exceeded resp. Normal with plausible measurements (margins >=3x); rows the kernel does not produce for a pid-namespace init are relaxed")
 	ce := &c09Env{}
 	defer ce.close()
 	var mu sync.Mutex
@@ -377,7 +386,14 @@ func TestC08Verdicts(t *testing.T) {
 	}
 	for _, r := range runners {
 		for _, w := range []string{"cpu-rlimit", "cpu-hard-rlimit", "fsize", "timelimit", "memlimit", "below"} {
-			cases = append(cases, c08VCase{r, w})
+			cases = append(cases, c08VCase{Runner: r, Workload: w})
+		}
+		if r != "container" { // Execve has no time/memory bound of its own
+			for _, w := range []string{"timelimit", "memlimit"} {
+				for _, e := range []string{"exit3", "segv"} {
+					cases = append(cases, c08VCase{Runner: r, Workload: w, Ending: e})
+				}
+			}
 		}
 	}
 	reps := vh.Scale(1, 3)
@@ -406,7 +422,7 @@ func TestC08Verdicts(t *testing.T) {
 	wg.Wait()
 	close(ch)
 	for o := range ch {
-		rec.Case(o.c, o.c.Workload != "below", "runner="+o.c.Runner, "workload="+o.c.Workload)
+		rec.Case(o.c, o.c.Workload != "below", "runner="+o.c.Runner, "workload="+o.c.Workload, "ending="+map[string]string{"": "exit0"}[o.c.Ending]+o.c.Ending)
 		if o.err != nil {
 			vh.Report(t, rec, o.c, o.err)
 		}
